@@ -1,7 +1,7 @@
 (* Request/response interface of the executable model: one S-expression in,
    one out.  Shared by the extracted runner and the in-Coq path. *)
 From InfluxQL Require Import Base.Prelude Base.Sexp Base.Oracles Lex.Token Lex.Reader Lex.Scanner Ast.Ast Ast.SexpAst
-  Val.Duration Parse.ExprTree Parse.Instr Parse.ParseExpr Parse.ParseStmts Ast.Printer Ast.PrinterStmts Parse.Params Ast.Privileges Ast.ColumnNames.
+  Val.Duration Parse.ExprTree Parse.Instr Parse.ParseExpr Parse.ParseStmts Ast.Printer Ast.PrinterStmts Parse.Params Ast.Privileges Ast.ColumnNames Sem.Eval Sem.Reduce.
 
 Definition bad_request : sexp := L [A (-1)].
 
@@ -85,8 +85,44 @@ Fixpoint with_table (orc : oracles) (tbl : list sexp) : oracles :=
           set_load_loc o (fun s => if text_eqb s k' then v' else o_load_loc o s)
       | _, _ => o
       end
+  | L [A 3; k; v] :: tbl' =>
+      let o := with_table orc tbl' in
+      match sd_text k, sd_opt sd_z v with
+      | Some k', Some v' => set_parse_time o (fun s => if text_eqb s k' then v' else o_parse_time o s)
+      | _, _ => o
+      end
+  | L [A 4; p; k; v] :: tbl' =>
+      let o := with_table orc tbl' in
+      match sd_text p, sd_text k, sd_bool v with
+      | Some p', Some k', Some v' =>
+          set_re_match o (fun pat s => if text_eqb pat p' && text_eqb s k' then v' else o_re_match o pat s)
+      | _, _, _ => o
+      end
   | _ :: tbl' => with_table orc tbl'
   end.
+
+(* values: (0) nil (1 b) (2 bits) (3 i) (4 u) (5 text) (6 regex) (7 t) (8 d) *)
+Definition se_value (v : value) : sexp :=
+  match v with
+  | VNil => L [A 0] | VBool b => L [A 1; se_bool b] | VFloat f => L [A 2; A (f_canon f)] | VInt i => L [A 3; A i]
+  | VUint u => L [A 4; A u] | VString s => L [A 5; se_text s] | VRegex r => L [A 6; se_text r]
+  | VTime t => L [A 7; A t] | VDur d => L [A 8; A d]
+  end.
+Definition sd_value (s : sexp) : option value :=
+  match s with
+  | L [A 0] => Some VNil
+  | L [A 1; b] => b' <-o sd_bool b ;; Some (VBool b')
+  | L [A 2; A f] => Some (VFloat f)
+  | L [A 3; A i] => Some (VInt i)
+  | L [A 4; A u] => Some (VUint u)
+  | L [A 5; t] => t' <-o sd_text t ;; Some (VString t')
+  | L [A 6; t] => t' <-o sd_text t ;; Some (VRegex t')
+  | L [A 7; A t] => Some (VTime t)
+  | L [A 8; A d] => Some (VDur d)
+  | _ => None
+  end.
+Definition sd_env (s : sexp) : option env :=
+  sd_list (fun p => match p with L [k; v] => k' <-o sd_text k ;; v' <-o sd_value v ;; Some (k', v') | _ => None end) s.
 
 Definition dispatch1 (orc : oracles) (req : sexp) : sexp :=
   match req with
@@ -141,6 +177,16 @@ Definition dispatch1 (orc : oracles) (req : sexp) : sexp :=
           match sd_select q with
           | Some q' => se_res (se_list se_text) (column_names q')
           | None => bad_request
+          end
+      | 16%nat, [m; now; e] =>
+          match sd_env m, sd_opt sd_z now, sd_expr e with
+          | Some m', Some now', Some e' => se_expr (Reduce orc (mkValuer m' now') e')
+          | _, _, _ => bad_request
+          end
+      | 17%nat, [ifd; m; e] =>
+          match sd_bool ifd, sd_env m, sd_expr e with
+          | Some ifd', Some m', Some e' => se_value (eval orc ifd' m' e')
+          | _, _, _ => bad_request
           end
       | 12%nat, [e] => match sd_expr e with Some e' => se_text (print_expr orc e') | None => bad_request end
       | _, _ => bad_request
